@@ -602,5 +602,9 @@ func TestC09(t *testing.T) {
 		parallelCases(vlib.Scale(60, 1500), 16, func(i int) { c09Racing(ev, d, i) })
 	}
 	c09Churn(ev, vlib.DriverMemory)
+	for _, d := range vlib.Drivers() {
+		d := d
+		parallelCases(vlib.Scale(24, 400), 12, func(i int) { c09SlowHostStaysRegistered(ev, d, i) })
+	}
 	finish(t, ev)
 }
